@@ -57,7 +57,7 @@ ADDSETS = {
     "counter": ["collections.Counter", "pickle.loads"],
 }
 # what else is armed on top of the ML environment while the probe runs
-OVERLAYS = ["none", "global-check", "context", "reactivated", "preloaded", "failed-import-first", "failed-reactivation"]   # preloaded: an earlier activation that
+OVERLAYS = ["none", "global-check", "context", "reactivated", "preloaded", "failed-import-first", "failed-reactivation", "reactivated-after-use"]   # preloaded: an earlier activation that
 #                                                   allowed everything really loaded the same payload, then was removed      # reactivated: another activation (with
 #                                                                     other additions) precedes, not removed
 
@@ -202,9 +202,30 @@ def run_case(ctx, mods, base, cache, chain, kind, final, entry, aname, overlay="
         return
     w = {"chain": list(chain), "inner": kind, "final": final, "entry": entry, "additions_name": aname, "overlay": overlay}
     del vp_sink.LOG[:]
+    in_force = False
     if overlay == "reactivated":
         hook.activate_safe_ml_environment(also_allow=["vp_sink.hit", "collections.Counter", "pickle.loads",
                                                       "_pickle.loads", "torch.load", "decimal.Decimal"])
+    if overlay == "reactivated-after-use" and adds:
+        # a service that re-activates per model: rounds of activations that are used and never removed, each handed a
+        # freshly built list the way callers do (`also_allow=[...]`), all of the same length as the case's own additions
+        # but naming other globals - whatever is remembered per list object / address / length / position cannot stand in
+        # for the additions now in force
+        pool = ["vp_sink.hit", "decimal.Decimal", "string.Formatter", "collections.Counter", "torch.load", "pickle.loads", "_pickle.loads"]
+
+        def fresh(names):
+            return [n for n in names]
+        n = len(adds)
+        for rnd in range(3):
+            for names in (pool[:n], pool[n:2 * n] or pool[-n:], adds):
+                hook.activate_safe_ml_environment(also_allow=fresh(names))
+                try:
+                    pickle.loads(b"K\x01.")
+                    pickle.load(io.BytesIO(b"]K\x02a."))
+                except BaseException:
+                    pass
+        agg.count("reactivations_after_use")
+        in_force = True          # the last activation of the last round is the case's own
     if overlay == "preloaded":
         wide = ["vp_sink.hit", "collections.Counter", "pickle.loads", "_pickle.loads", "torch.load", "decimal.Decimal",
                 "string.Formatter"]
@@ -224,7 +245,8 @@ def run_case(ctx, mods, base, cache, chain, kind, final, entry, aname, overlay="
         # the caller's additions also name globals that cannot be imported (module not installed, attribute gone);
         # loads that fail on them come first - then the case's load, in the same activation
         adds = list(adds) + ["vp_not_installed_mod.thing", "collections.NoSuchThingHere", "json.nonexistent_attr"]
-    hook.activate_safe_ml_environment(also_allow=list(adds) if adds else None)
+    if not in_force:
+        hook.activate_safe_ml_environment(also_allow=list(adds) if adds else None)
     if overlay == "failed-import-first":
         for blob in (b"cvp_not_installed_mod\nthing\n.", b"ccollections\nNoSuchThingHere\n.", b"\x80\x04\x8c\x04json\x8c\x10nonexistent_attr\x93.",
                      b"cvp_not_installed_mod\nthing\n)R."):
